@@ -26,8 +26,8 @@ class CallGraph:
     def __init__(self, facts):
         self.facts = facts
         self.impls = {}        # trait item path -> [impl fn names]
-        for n, f in facts.fns.items():
-            ti = f.r.get("trait_item")
+        for n, e in facts.fns.index.items():
+            ti = e[6]
             if ti:
                 self.impls.setdefault(ti, []).append(n)
         self._edges = {}
